@@ -38,7 +38,7 @@ SHARDS = {'quick': 16, 'thorough': 16}
 TIMEOUT = {'quick': 1200, 'thorough': 7200}
 FLOOR = {'quick': 150, 'thorough': 1500}
 REQUIRED_MONITORS = {'schedules-executed': 100, 'context-switches-inside-monitored-code': 100,
-                     'stress-renders': 1000, 'history-renders': 500, 'loader-history-renders': 500, 'file-history-renders': 400, 'M-args': 500, 'cross-process-outputs': 20, 'pool-orders-rendered': 16}
+                     'stress-renders': 1000, 'history-renders': 500, 'loader-history-renders': 500, 'file-history-renders': 400, 'instances-of-one-class-compared': 300, 'M-args': 500, 'cross-process-outputs': 20, 'pool-orders-rendered': 16}
 RULE = ('(d) a case = one executed schedule of 2 threads over a scenario in {first (lazy) render of a fresh file template, '
         'render of an auto-reload template whose file changed before both calls, first load+render through a shared '
         'loader, load: chain}; schedules: A advanced k line-steps then B to completion (every k until A finishes, both '
@@ -159,6 +159,53 @@ def layer_file_histories(ctx, n):
             ctx.case(key=('filehist', tuple(h.split('(')[0] for h in hist)), nontrivial=any(h.startswith('write') for h in hist))
     finally:
         shutil.rmtree(d, ignore_errors=True)
+
+
+
+def layer_instances_of_one_class(ctx, n):
+    """Separately compiled instances of the same source and configuration render alike whatever OTHER instances of the
+    class were created in between (with extra builtins, other options, other documents): nothing an instance is
+    given may end up in state shared by the class - also for template classes that keep their builtins in a plain
+    class-level dictionary, the documented way of a BaseTemplate subclass."""
+    from chameleon import PageTemplate, PageTextTemplate
+    rng = ctx.rng
+
+    def fresh_classes():
+        class DictBuiltins(PageTemplate):
+            builtins = {'site': 'S', 'nothing': None}        # a plain dictionary instead of the computed property
+
+        class TextDictBuiltins(PageTextTemplate):
+            builtins = {'site': 'S', 'nothing': None}
+        return [PageTemplate, DictBuiltins, PageTextTemplate, TextDictBuiltins]
+    for case in range(n):
+        cls = rng.choice(fresh_classes())
+        src = "[${user | 'guest'}|${site | 'nosite'}|${helper | 'nohelper'}|${x}]"
+        before = cls(src)
+        r0 = before(x=1)
+        for _ in range(rng.randint(1, 3)):
+            kind = rng.choice(['extra-builtins', 'other-document', 'other-option'])
+            try:
+                if kind == 'extra-builtins':
+                    cls(src, extra_builtins={'user': 'root', 'helper': (lambda: 1), 'x': 'shadow'})(x=1)
+                elif kind == 'other-document':
+                    cls('<p tal:define="global user 1">${user}</p>' if 'Text' not in cls.__name__ else '${user}', extra_builtins={'user': 'u2'})(x=1)
+                else:
+                    cls(src, strict=False, extra_builtins={'site': 'other-site'})(x=1)
+            except Exception:
+                pass
+        after = cls(src)
+        r1 = after(x=1)
+        r2 = before(x=1)
+        rewritten = None
+        if rng.random() < .5:
+            before.write(src)           # a long-lived instance cooked again
+            rewritten = before(x=1)
+        ctx.mon('instances-of-one-class-compared')
+        ctx.case(key=('instances', cls.__name__, case % 7), nontrivial=True)
+        if not (r0 == r1 == r2) or (rewritten is not None and rewritten != r0):
+            ctx.violation('instance-sees-state-of-other-instances', 'class %s (%s): first instance %r, an instance created after others with extra builtins %r, '
+                          'the first instance again %r, after write() %r' % (cls.__name__, 'builtins is a class-level dict' if 'Dict' in cls.__name__ else 'stock',
+                                                                              r0, r1, r2, rewritten), {'kind': 'instances'})
 
 
 CHILD_SNIPPET = r'''
@@ -636,6 +683,7 @@ def run(ctx):
     layer_histories(ctx, 40 if ctx.quick else 600)
     layer_loader_histories(ctx, 25 if ctx.quick else 400)
     layer_file_histories(ctx, 15 if ctx.quick else 300)
+    layer_instances_of_one_class(ctx, 25 if ctx.quick else 400)
     layer_cross_process(ctx)
     layer_order_independence(ctx, 3 if ctx.quick else 8)
     layer_stress(ctx, 3 if ctx.quick else 30)
